@@ -488,6 +488,8 @@ func (ex *Exec) contractCall(st *State, fr *Frame, instr ssa.Instruction, fn *ss
 			st.assume(g)
 		}
 	}
+	// results satisfy their object invariants (proved at the callee's returns)
+	ex.resultObjInvs(st, pf, key, ret, false)
 	return ret
 }
 
